@@ -58,10 +58,11 @@ def build_classes(desc):
                 T = typing.List[env[ref]]
             elif base == "dict_nested":
                 T = typing.Dict[str, env[ref]]
-            elif base == "klist":
-                T = KeyedList[env[ref], str]
-            elif base == "kset":
-                T = KeyedSet[env[ref], str]
+            elif base in ("klist", "kset"):
+                # the declared key type is the type of the element class's key attribute (enforced since /repo 3655f2b)
+                rcd = next(c for c in desc if c["name"] == ref)
+                kty = next((x["ty"] for x in all_attrs(rcd) if x["name"] == eff_key(rcd)), "str")
+                T = (KeyedList if base == "klist" else KeyedSet)[env[ref], int if kty == "int" else str]
             ann[a["name"]] = T
             f = a.get("form", "none")
             if f == "value":
@@ -294,8 +295,10 @@ def c_sig(ps):
     return clist(ps, lambda p: f"(P {cs(p[0])} {p[1]} {copt(p[2], cz)})")
 
 
-def gen_calls(adv, extra_unadvertised):
-    """calls as (positional values after the receiver, keyword pairs) from the advertised signature"""
+def gen_calls(adv, extra_unadvertised, light=False):
+    """calls as (positional values after the receiver, keyword pairs) from the advertised signature; `light`: of the
+    pairs of advertised parameters only those of the first two parameters with every other one and of parameters at
+    most two places apart (descriptions whose purpose is the effect calls on the real methods)"""
     ps = [p for p in adv if p[0] != "self"]
     P = [p[0] for p in ps if p[1] == "PosOrKw"]
     named = [p[0] for p in ps if p[1] != "VarKw"]
@@ -314,7 +317,9 @@ def gen_calls(adv, extra_unadvertised):
             add(P[:P.index(a) + 1], [x for x in base if x not in P[:P.index(a) + 1]])
             add(P[:P.index(a) + 1], [a])  # multiple values
     for i, a in enumerate(named):
-        for b in named[i + 1:]:
+        for j, b in enumerate(named[i + 1:]):
+            if light and i >= 2 and j >= 2:
+                continue
             add([], sorted({a, b} | set(base), key=(base + named).index))
             if not base or (i + len(b)) % 3 == 0:
                 add([], [a, b])
@@ -1130,7 +1135,7 @@ def cases_for(desc, only=None):
             extra = [n for n in all_attr_names if n not in [p[0] for p in adv]][:4]
             if nested:
                 extra += [a[0] for a in nested[0] if not a[1]] + ([nested[1]] if nested[1] else [])
-            calls = gen_calls(adv, extra)
+            calls = gen_calls(adv, extra, light=bool(desc and desc[0].get("light")))
             obs = run_calls(f, inst, adv, calls)
             effects = effects_for(env, by_name, cd, cls, mname, pat, kind, adv)
             effects += pair_effects(env, by_name, cd, cls, mname, pat, kind, adv)
@@ -1312,7 +1317,7 @@ FIXED.append([
 # keyword and lost behind the wrapper (0, False, 0.0, "", None, [], {}, set()) is told from the default; keyed, overflow,
 # frozen and re-defaulting variants, and a holder with nested / list / dict / KeyedList / KeyedSet elements of them
 FIXED.append([
-    {"name": "FChild", "attrs": [_iv("x", 71), _iv("flag", True, ty="bool"), _iv("label", "dflt", ty="str"),
+    {"name": "FChild", "light": True, "attrs": [_iv("x", 71), _iv("flag", True, ty="bool"), _iv("label", "dflt", ty="str"),
                                  _iv("tags", [1], ty="list"), _iv("opt", 3, ty="opt"), _iv("ratio", 1.5, ty="float"),
                                  _iv("m", {"a": 1}, ty="dict"), _iv("st", [1], ty="set"), _iv("bare", None, "none", "str"),
                                  _iv("blist", None, "none", "list"), _iv("bopt", None, "none", "opt")]},
@@ -1343,7 +1348,7 @@ def random_desc(rng, nclasses):
         names = rng.sample(NAMES, rng.randint(1, 5))
         attrs = []
         for nm in names:
-            choices = ["int", "int", "str", "list", "dict", "set"]
+            choices = ["int", "int", "str", "list", "dict", "set", "bool", "float", "opt"]
             if desc:
                 ref = rng.choice(desc)["name"]
                 choices += [f"nested:{ref}", f"list_nested:{ref}", f"dict_nested:{ref}"]
@@ -1355,11 +1360,16 @@ def random_desc(rng, nclasses):
             if ty == "int":
                 form = rng.choice(["none", "value", "value", "noinit", "property"])
             elif ty == "list":
-                form = rng.choice(["none", "factory"])
+                form = rng.choice(["none", "factory", "value"])
+            elif ty in ("str", "dict", "set", "bool", "float", "opt"):
+                form = rng.choice(["none", "value", "value"])
             a = {"name": nm, "ty": ty, "form": form}
             if form in ("value", "noinit"):
                 dflt[0] += 1
-                a["default"] = dflt[0]
+                n_ = dflt[0]
+                # truthy literal defaults: a falsy value handed over and lost must be told from the default
+                a["default"] = {"str": f"d{n_}", "list": [n_], "dict": {"a": n_}, "set": [n_], "bool": True,
+                                "float": n_ + 0.5}.get(ty, n_)
             attrs.append(a)
         if rng.random() < 0.3:
             dflt[0] += 1
